@@ -19,3 +19,10 @@ Definition failing {X} (f : X -> bool) (l : list X) : list nat := failing_from f
 
 Definition zlist_eqb := list_eqb Z.eqb.
 Definition natlist_eqb := list_eqb Nat.eqb.
+
+Fixpoint list_eqb2 {X Y} (e : X -> Y -> bool) (a : list X) (b : list Y) : bool :=
+  match a, b with
+  | [], [] => true
+  | x :: r, y :: s => e x y && list_eqb2 e r s
+  | _, _ => false
+  end.
